@@ -83,9 +83,12 @@ type run struct {
 	mon     *ha.HealthMonitor
 	ctl     *ha.FailoverController
 	cbOK    bool
+	cbDelay time.Duration // how long the role-change callback takes
+	cbAct   string        // what happens to the partner while it runs: down | up | none
 	evs     []emitted
 	drift   time.Duration // the real (virtual) clock is this much behind the scripted clock
 	stale   []func()
+	staleFb []func()
 	delay   time.Duration
 	fbDelay time.Duration
 	grace   time.Duration
@@ -95,9 +98,15 @@ func (comp) NewRun() hx.Run { return &run{cbOK: true} }
 
 func (r *run) Close() {
 	if r.ctl != nil {
+		// Bring the controller to rest before the bubble ends (a bubble must not end while a goroutine is in a
+		// grace sleep or a slow callback, and a failing callback next to a dead partner is retried for ever):
+		// callbacks succeed at once, the partner is healthy, and everything in flight gets time to finish.
+		old := r.cbDelay
+		r.cbOK, r.cbDelay, r.cbAct = true, 0, "none"
+		r.evs = nil
+		r.mon.SetPartnerHealthyForVerif(true)
+		time.Sleep(2*(r.delay+r.fbDelay+r.grace+old) + time.Second)
 		r.ctl.Stop()
-		// an execution may still be in its grace sleep: the bubble must not end before it has returned
-		time.Sleep(r.grace + time.Millisecond)
 	}
 	synctest.Wait()
 }
@@ -132,7 +141,7 @@ func (r *run) Do(op string) string {
 	f := hx.Fields(op)
 	if f[0] == "new" {
 		// new <standby|active> <delay> <fbdelay> <grace> <failback 0|1>
-		if len(f) != 6 {
+		if len(f) != 6 || r.ctl != nil {
 			return "badop"
 		}
 		d, _ := strconv.Atoi(f[2])
@@ -146,11 +155,34 @@ func (r *run) Do(op string) string {
 		r.mon = ha.NewHealthMonitor(ha.DefaultHealthConfig(), &ha.PartnerInfo{NodeID: "P", Endpoint: "127.0.0.1:1"}, logger)
 		r.ctl = ha.NewFailoverController(cfg, "N", ha.Role(f[1]), 1, r.mon, logger)
 		r.ctl.SetRoleChangeCallback(func(role ha.Role) error {
-			if r.cbOK {
+			ok := r.cbOK
+			if ok {
 				r.emit("cb:" + string(role) + ":ok")
+			} else {
+				r.emit("cb:" + string(role) + ":fail")
+			}
+			// a slow callback during which the partner's health changes (1 ms in, so never on a tick instant);
+			// what happens is fixed when the callback starts
+			act, delay := r.cbAct, r.cbDelay
+			spent := time.Duration(0)
+			if act == "down" || act == "up" {
+				time.Sleep(time.Millisecond)
+				spent = time.Millisecond
+				want := act == "up"
+				if r.mon.IsPartnerHealthy() != want {
+					r.emit("health:" + act)
+				}
+				r.mon.SetPartnerHealthyForVerif(want)
+			}
+			if delay > spent {
+				time.Sleep(delay - spent)
+			}
+			if !ok {
+				r.emit("cbfailed:" + string(role))
+			}
+			if ok {
 				return nil
 			}
-			r.emit("cb:" + string(role) + ":fail")
 			return errors.New("refused")
 		})
 		r.ctl.OnFailoverEvent(func(e ha.FailoverEvent) {
@@ -193,6 +225,19 @@ func (r *run) Do(op string) string {
 	case "cb":
 		r.cbOK = len(f) > 1 && f[1] == "ok"
 		return r.obs()
+	case "setpartner":
+		// the partner is reconfigured (HealthMonitor.SetPartner): the health state is reset to healthy
+		r.mon.SetPartner(&ha.PartnerInfo{NodeID: "P2", Endpoint: "127.0.0.1:2"})
+		return r.obs()
+	case "cbslow":
+		// cbslow <ms> <down|up|none>: from now on the callback takes <ms> and the partner's health changes
+		// as soon as it starts
+		if len(f) != 3 {
+			return "badop"
+		}
+		n, _ := strconv.Atoi(f[1])
+		r.cbDelay, r.cbAct = time.Duration(n)*time.Millisecond, f[2]
+		return r.obs()
 	case "force-failover":
 		err := r.ctl.ForceFailover("operator")
 		if err != nil {
@@ -225,6 +270,33 @@ func (r *run) Do(op string) string {
 		r.stale = append(r.stale, r.ctl.StaleFailoverTimerForVerif())
 		r.mon.SetPartnerHealthyForVerif(true)
 		return r.obs()
+	case "racedown":
+		// The failback timer reaches its deadline on a control-loop tick instant; its callback starts and loses
+		// the race for the mutex against a partner_down and the tick's cancellation (evaluateState).  Same
+		// technique as raceup: the clock stops 1 ns short, the callback is kept for `stale-fb`.
+		if r.ctl.State() != ha.FailoverStateFailbackPending || r.drift != 0 {
+			return "none"
+		}
+		_, fb := r.ctl.DeadlinesForVerif()
+		left := time.Until(fb)
+		if left <= 0 || ms(fb.Sub(r.start))%1000 != 0 {
+			return "none"
+		}
+		time.Sleep(left - time.Nanosecond)
+		r.drift = time.Nanosecond
+		synctest.Wait()
+		r.staleFb = append(r.staleFb, r.ctl.StaleFailbackTimerForVerif())
+		r.mon.SetPartnerHealthyForVerif(false)
+		r.ctl.EvaluateStateForVerif()
+		return r.obs()
+	case "stale-fb":
+		if len(r.staleFb) == 0 {
+			return "none"
+		}
+		h := r.staleFb[0]
+		r.staleFb = r.staleFb[1:]
+		go h()
+		return r.obs()
 	case "stale":
 		if len(r.stale) == 0 {
 			return "none"
@@ -250,9 +322,17 @@ const (
 var alphabet = []string{"down", "up",
 	fmt.Sprintf("adv %d", D-E), fmt.Sprintf("adv %d", D), fmt.Sprintf("adv %d", D+E), fmt.Sprintf("adv %d", G),
 	fmt.Sprintf("adv %d", FB), "adv 1000",
-	"force-failover", "force-failback", "cb ok", "cb fail", "raceup", "stale"}
+	"force-failover", "force-failback", "cb ok", "cb fail", "raceup", "stale",
+	"cbslow 1500 down", "cbslow 1500 up", "cbslow 0 none", "setpartner"}
 
-var flush = []string{"adv 1000", fmt.Sprintf("adv %d", D+G+FB+1000), "stale", fmt.Sprintf("adv %d", D+G+FB+1000)}
+// alphabet of the configuration whose deadlines fall on the control loop's tick instants (delay 1000,
+// failback delay 2000, grace 3000): the failback-timer race needs a tick at the deadline
+var alphabetTick = []string{"down", "up", "adv 1000", "adv 2000", "adv 3000", "adv 900", "adv 100",
+	"force-failover", "cb ok", "cb fail", "raceup", "stale", "racedown", "stale-fb",
+	"cbslow 1000 down", "cbslow 1000 up", "cbslow 0 none", "setpartner"}
+
+var flush = []string{"adv 1000", fmt.Sprintf("adv %d", D+G+FB+3000), "stale", "stale-fb", fmt.Sprintf("adv %d", D+G+FB+3000),
+	fmt.Sprintf("adv %d", D+G+FB+3000)}
 
 func newOp(role string, d, fb, g int, fbEnabled bool) string {
 	e := 0
@@ -276,15 +356,31 @@ func (c comp) Gen(r *rand.Rand, tier string, emit func([]string)) {
 	}
 	for i := 0; i < nRand; i++ {
 		seq := []string{configs[r.Intn(len(configs))]}
-		if r.Intn(3) == 0 {
+		switch r.Intn(4) {
+		case 0:
 			seq[0] = configs[0]
+		case 1:
+			seq[0] = configs[3]
 		}
 		n := 3 + r.Intn(22)
+		al := alphabet
+		if seq[0] == configs[3] {
+			al = alphabetTick
+		}
+		if seq[0] == configs[3] && r.Intn(2) == 0 {
+			// start from a failback pending on a tick instant, where the failback-timer race can be scripted
+			seq = append(seq, "down", "adv 1000", "adv 3000", "up")
+			if r.Intn(2) == 0 {
+				seq = append(seq, "racedown", "up")
+			}
+		} else if seq[0] == configs[0] && r.Intn(4) == 0 {
+			seq = append(seq, "down", fmt.Sprintf("adv %d", D), fmt.Sprintf("adv %d", G), "up")
+		}
 		for j := 0; j < n; j++ {
 			if r.Intn(6) == 0 {
 				seq = append(seq, fmt.Sprintf("adv %d", 100*(1+r.Intn(40))))
 			} else {
-				seq = append(seq, alphabet[r.Intn(len(alphabet))])
+				seq = append(seq, al[r.Intn(len(al))])
 			}
 		}
 		emit(append(seq, flush...))
@@ -293,10 +389,10 @@ func (c comp) Gen(r *rand.Rand, tier string, emit func([]string)) {
 	if tier == "thorough" {
 		depth = 8
 	}
-	bfs(c, configs[0], depth, emit)
+	bfs(c, configs[0], alphabet, depth, emit)
+	bfs(c, configs[3], alphabetTick, depth-1, emit)
 	if tier == "thorough" {
-		bfs(c, configs[3], 6, emit)
-		bfs(c, configs[2], 6, emit)
+		bfs(c, configs[2], alphabet, 6, emit)
 	}
 }
 
@@ -305,7 +401,7 @@ func (c comp) Gen(r *rand.Rand, tier string, emit func([]string)) {
 // callback mode, stale callbacks outstanding) plus the time left on the armed timers and on the grace sleep;
 // counters are left out.  Every extension of every kept prefix is emitted (with the flush tail), so every
 // transition out of every distinct state reached within the depth is executed at least once.
-func bfs(c comp, cfg string, depth int, emit func([]string)) {
+func bfs(c comp, cfg string, alphabet []string, depth int, emit func([]string)) {
 	seen := map[string]bool{}
 	frontier := [][]string{{cfg}}
 	for d := 0; d < depth && len(frontier) > 0; d++ {
@@ -356,7 +452,7 @@ func fingerprint(c comp, seq []string) string {
 		fo, fb := r.ctl.DeadlinesForVerif()
 		parts := []string{string(r.ctl.CurrentRole()), r.ctl.State().String(),
 			strconv.FormatBool(r.mon.IsPartnerHealthy()), strconv.FormatBool(r.cbOK), strconv.Itoa(len(r.stale)),
-			strconv.FormatInt(ms(now)%1000, 10)}
+			strconv.Itoa(len(r.staleFb)), r.cbAct, r.cbDelay.String(), strconv.FormatInt(ms(now)%1000, 10)}
 		switch r.ctl.State() {
 		case ha.FailoverStatePending:
 			parts = append(parts, "fo", strconv.FormatInt(ms(fo.Sub(r.start)-now), 10))
